@@ -236,3 +236,13 @@ Module Old.
     | ODone => None
     end.
 End Old.
+
+(** * SetStatus on a recording span (span.go): [if s.status.Code > code { return }], codes Unset < Error < Ok;
+    the description is kept for Error only. *)
+Definition srank (c : scode) : nat := match c with SUnset => 0 | SError _ => 1 | SOk => 2 end.
+Definition set_status (cur new : scode) : scode := if srank new <? srank cur then cur else new.
+Fixpoint status_run (cur : scode) (ws : list scode) : list scode :=
+  match ws with
+  | [] => []
+  | w :: r => let c := set_status cur w in c :: status_run c r
+  end.
